@@ -339,7 +339,26 @@ func ParseAuthorization(header string) (scheme string, origin, destination spec.
 	// The parameters are a comma separated list of name=token or
 	// name="quoted-string" pairs (RFC 7235). Anything else makes the header
 	// malformed, which is reported by returning no values at all.
-	for _, data := range strings.Split(parts[1], ",") {
+	// A comma inside a quoted string does not end the parameter.
+	var params []string
+	inQuotes, start := false, 0
+	for i := 0; i < len(parts[1]); i++ {
+		switch parts[1][i] {
+		case '"':
+			inQuotes = !inQuotes
+		case ',':
+			if !inQuotes {
+				params = append(params, parts[1][start:i])
+				start = i + 1
+			}
+		}
+	}
+	if inQuotes {
+		return scheme, "", "", "", ""
+	}
+	params = append(params, parts[1][start:])
+	seen := map[string]bool{}
+	for _, data := range params {
 		data = strings.Trim(data, " \t")
 		if data == "" {
 			continue // empty list members are allowed
@@ -348,7 +367,18 @@ func ParseAuthorization(header string) (scheme string, origin, destination spec.
 		if len(pair) != 2 {
 			return scheme, "", "", "", ""
 		}
-		name := strings.TrimSpace(pair[0])
+		// The name is a token; only SP and HTAB may surround it, and a
+		// parameter occurs at most once.
+		name := strings.Trim(pair[0], " \t")
+		if name == "" || strings.IndexFunc(name, func(r rune) bool {
+			return r <= ' ' || r >= 0x7f || strings.ContainsRune("()<>@,;:\\\"/[]?={}", r)
+		}) >= 0 {
+			return scheme, "", "", "", ""
+		}
+		if seen[strings.ToLower(name)] {
+			return scheme, "", "", "", ""
+		}
+		seen[strings.ToLower(name)] = true
 		value := strings.Trim(pair[1], " \t")
 		if strings.HasPrefix(value, "\"") {
 			if len(value) < 2 || !strings.HasSuffix(value, "\"") {
